@@ -64,11 +64,13 @@ PLANS = ["all_kw", "positional", "ctx_inner", "ctx_split", "ctx_overridden",
 
 # method -> (base args builder, contextual args in signature order, family)
 MC_METHODS = {
-    "read": (lambda r: (0x60000000 + 4 * r.randrange(64), r.randint(1, 40)),
+    "read": (lambda r: (0x60000000 + 4 * r.randrange(64),
+                        r.choice([r.randint(1, 40), 300, 700])),
              ["x", "y", "p"], "mem"),
     "write": (lambda r: (0x60000000 + 4 * r.randrange(64),
                          bytes(r.getrandbits(8) for _ in range(
-                             r.randint(1, 40)))), ["x", "y", "p"], "mem"),
+                             r.choice([r.randint(1, 40), 300, 520])))),
+              ["x", "y", "p"], "mem"),
     "fill": (lambda r: (0x60000000 + 4 * r.randrange(64), r.getrandbits(8),
                         4 * r.randint(1, 8)), ["x", "y", "p"], "mem"),
     "read_struct_field": (lambda r: ("sv", r.choice(["p2p_addr", "led0"])),
@@ -93,7 +95,8 @@ MC_METHODS = {
     "iptag_get": (lambda r: (r.randrange(8),), ["x", "y"], "chip0"),
     "iptag_set": (lambda r: (r.randrange(8), "10.1.2.3", 50000 + r.randrange(9)),
                   ["x", "y"], "chip0"),
-    "set_led": (lambda r: (r.randrange(4), r.choice([True, False, None])),
+    "set_led": (lambda r: (r.choice([r.randrange(4), [0, 2], (1, 3)]),
+                           r.choice([True, False, None])),
                 ["x", "y"], "chip0"),
     "sdram_free": (lambda r: (0x60100000,), ["x", "y"], "chip0"),
     "read_across_link": (lambda r: (0x60000000, 8), ["x", "y", "link"],
@@ -102,23 +105,27 @@ MC_METHODS = {
                           ["x", "y", "link"], "link"),
     "sdram_alloc": (lambda r: (r.randint(4, 64), r.randrange(3)),
                     ["x", "y", "app_id"], "app-chip"),
+    "sdram_alloc+clear": (lambda r: (4 * r.randint(1, 16), 0),
+                          ["x", "y", "app_id"], "app-chip"),
     "sdram_alloc_as_filelike": (lambda r: (r.randint(4, 64), 0),
                                 ["x", "y", "app_id"], "app-chip"),
     "load_routing_table_entries": (lambda r: ("ENTRIES",),
                                    ["x", "y", "app_id"], "app-chip"),
     "clear_routing_table_entries": (lambda r: (), ["x", "y", "app_id"],
                                     "app-chip"),
-    "send_signal": (lambda r: (r.choice(["stop", "start", "pause"]),),
+    "send_signal": (lambda r: (r.choice(["stop", "start", "pause", 7, 2]),),
                     ["app_id"], "app-global"),
-    "count_cores_in_state": (lambda r: (r.choice(["run", "wait", "idle"]),),
-                             ["app_id"], "app-global"),
-    "wait_for_cores_to_reach_state": (lambda r: ("idle", 0), ["app_id"],
-                                      "app-global"),
+    "count_cores_in_state": (lambda r: (r.choice(
+        ["run", "wait", "idle", 7, ["run", "wait"], ("idle", "run", "sync0"),
+         ["exit"]]),), ["app_id"], "app-global"),
+    "wait_for_cores_to_reach_state": (lambda r: (r.choice(
+        ["idle", ["run", "idle"], ("wait", "pause")]), 0), ["app_id"],
+        "app-global"),
     "load_routing_tables": (lambda r: ("TABLES",), ["app_id"], "app-tables"),
-    "flood_fill_aplx": (lambda r: ("APLX", "TARGETS"), ["app_id"],
-                        "app-global"),
-    "load_application": (lambda r: ("APLX", "TARGETS"), ["app_id"],
-                         "app-global"),
+    "flood_fill_aplx": (lambda r: r.choice([("APLX", "TARGETS"), ("MAP",)]),
+                        ["app_id"], "app-global"),
+    "load_application": (lambda r: r.choice([("APLX", "TARGETS"), ("MAP",)]),
+                         ["app_id"], "app-global"),
     "get_software_version": (lambda r: (), ["x", "y", "processor"], "sver"),
     "get_system_info": (lambda r: (), ["x", "y"], "first-chip0"),
     "discover_connections": (lambda r: (), ["x", "y"], "first-chip0"),
@@ -130,7 +137,8 @@ DEFAULTS = {"read": {"p": 0}, "write": {"p": 0},
             "get_software_version": {"x": 255, "y": 255, "processor": 0},
             "get_system_info": {"x": 255, "y": 255},
             "discover_connections": {"x": 255, "y": 255}}
-KWONLY = {"send_scp", "sdram_alloc", "sdram_alloc_as_filelike", "sdram_free",
+KWONLY = {"send_scp", "sdram_alloc", "sdram_alloc+clear",
+          "sdram_alloc_as_filelike", "sdram_free",
           "set_led", "flood_fill_aplx", "load_application"}
 BMP_METHODS = {
     "get_software_version": (lambda r: (), "board"),
@@ -258,6 +266,12 @@ def materialise(args, tmp, rt):
                     f.write(bytes(range(64)))
         elif a == "TARGETS":
             a = {(1, 0): {2, 3}, (2, 2): {5}}
+        elif a == "MAP":
+            path = os.path.join(tmp, "a.aplx")
+            if not os.path.exists(path):
+                with open(path, "wb") as f:
+                    f.write(bytes(range(64)))
+            a = {path: {(1, 0): {2, 3}, (2, 2): {5}}}
         out.append(a)
     return out
 
@@ -267,7 +281,11 @@ def call_with_plan(mc, name, base, cargs, resolved, decoy, plan, kwonly,
     """-> (callable performing the call inside the right context blocks,
     did-it-use-context-or-default)"""
     defaults = DEFAULTS.get(name, {})
-    meth = getattr(mc, name)
+    extra_kw = {"clear": True} if name.endswith("+clear") else {}
+    real = name.split("+")[0]
+    meth0 = getattr(mc, real)
+    meth = (lambda *a, **k: meth0(*a, **dict(extra_kw, **k))) if extra_kw \
+        else meth0
     ctxs = []
     args, kw = list(base), {}
     used_ctx = False
@@ -373,8 +391,10 @@ def run_mc(case, ctx):
         # ---- twin: everything explicit on a fresh controller
         B.activate()
         try:
-            getattr(B.mc, name)(*materialise(base0, tmp, rt),
-                                **{a: resolved[a] for a in cargs})
+            extra = {"clear": True} if name.endswith("+clear") else {}
+            getattr(B.mc, name.split("+")[0])(
+                *materialise(base0, tmp, rt),
+                **dict(extra, **{a: resolved[a] for a in cargs}))
         except Exception as e:
             raise Violation("twin-failed", "%s: %s" % (type(e).__name__, e),
                             **where)
@@ -749,7 +769,8 @@ def run_inventory(ctx):
               if callable(f) and hasattr(f, "__wrapped__")}
     ctx.count("decorated_machine_methods", len(found))
     ctx.count("decorated_board_methods", len(foundb))
-    ctx.count("machine_methods_not_in_table", len(found - set(MC_METHODS)))
+    ctx.count("machine_methods_not_in_table",
+              len(found - {n.split("+")[0] for n in MC_METHODS}))
     ctx.count("board_methods_not_in_table", len(foundb - set(BMP_METHODS)))
     ctx.note(dict(not_covered=sorted(found - set(MC_METHODS)) +
                   sorted(foundb - set(BMP_METHODS)),
@@ -763,7 +784,7 @@ def run(case, ctx):
     if k == "mc":
         if not hasattr(importlib.import_module(
                 "rig.machine_control.machine_controller").MachineController,
-                case["method"]):
+                case["method"].split("+")[0]):
             return "method-absent"
         run_mc(case, ctx)
     elif k == "nesting":
